@@ -60,6 +60,40 @@ impl DiagnosticItem {
     }
 }
 
+impl DiagnosticItem {
+    /// Put diagnostics in their output order and report each of them once.
+    ///
+    /// Files are ordered by name (their identifiers are random), diagnostics
+    /// within a file by position; diagnostics at the same position keep the
+    /// order in which they were found. A diagnostic that agrees with an earlier
+    /// one in level, title, location, messages and related information is dropped.
+    pub fn sort_for_output<R: crate::reader::FileReader>(diags: &mut Vec<DiagnosticItem>, reader: &R) {
+        diags.sort_by(|a, b| {
+            reader
+                .get_filename(a.file)
+                .cmp(&reader.get_filename(b.file))
+                .then_with(|| a.range.cmp(&b.range))
+        });
+        let mut seen = std::collections::BTreeSet::new();
+        diags.retain(|d| {
+            let related = d.related.as_ref().map(|v| {
+                v.iter()
+                    .map(|r| (r.file, r.range.clone(), r.description.clone()))
+                    .collect::<Vec<_>>()
+            });
+            seen.insert((
+                d.file,
+                d.range.clone(),
+                d.title.clone(),
+                d.description.clone(),
+                d.long_description.clone(),
+                d.level.clone() as u8,
+                related,
+            ))
+        });
+    }
+}
+
 impl PartialEq for DiagnosticItem {
     fn eq(&self, other: &Self) -> bool {
         self.range == other.range && self.file == other.file
